@@ -339,7 +339,8 @@ func (l *Linter) lintSwitchStatement(stmt *ast.SwitchStatement, ctx *context.Con
 
 func (l *Linter) lintRestartStatement(stmt *ast.RestartStatement, ctx *context.Context) types.Type {
 	// restart statement enables in RECV, HIT, FETCH, ERROR and DELIVER scope
-	if ctx.Mode()&(context.RECV|context.HIT|context.FETCH|context.ERROR|context.DELIVER) == 0 {
+	// every scope which the subroutine runs in must allow the statement
+	if ctx.Mode()&(context.RECV|context.HIT|context.FETCH|context.ERROR|context.DELIVER) == 0 || ctx.Mode()&^(context.RECV|context.HIT|context.FETCH|context.ERROR|context.DELIVER) != 0 {
 		err := &LintError{
 			Severity: ERROR,
 			Token:    stmt.GetMeta().Token,
@@ -467,7 +468,8 @@ func (l *Linter) lintCallStatement(stmt *ast.CallStatement, ctx *context.Context
 
 func (l *Linter) lintErrorStatement(stmt *ast.ErrorStatement, ctx *context.Context) types.Type {
 	// error statement could use in RECV, HIT, MISS, PASS, and FETCH.
-	if ctx.Mode()&(context.RECV|context.HIT|context.MISS|context.PASS|context.FETCH) == 0 {
+	// every scope which the subroutine runs in must allow the statement
+	if ctx.Mode()&(context.RECV|context.HIT|context.MISS|context.PASS|context.FETCH) == 0 || ctx.Mode()&^(context.RECV|context.HIT|context.MISS|context.PASS|context.FETCH) != 0 {
 		err := &LintError{
 			Severity: ERROR,
 			Token:    stmt.GetMeta().Token,
@@ -639,7 +641,8 @@ func (l *Linter) lintReturnStatement(stmt *ast.ReturnStatement, ctx *context.Con
 
 func (l *Linter) lintSyntheticStatement(stmt *ast.SyntheticStatement, ctx *context.Context) types.Type {
 	// synthetic statement only available in ERROR.
-	if ctx.Mode()&(context.ERROR) == 0 {
+	// every scope which the subroutine runs in must allow the statement
+	if ctx.Mode()&(context.ERROR) == 0 || ctx.Mode()&^(context.ERROR) != 0 {
 		err := &LintError{
 			Severity: ERROR,
 			Token:    stmt.GetMeta().Token,
@@ -712,7 +715,8 @@ func (l *Linter) lintIdent(exp *ast.Ident, ctx *context.Context) types.Type {
 
 func (l *Linter) lintSyntheticBase64Statement(stmt *ast.SyntheticBase64Statement, ctx *context.Context) types.Type {
 	// synthetic.base64 is similer to synthetic statement, but expression is base64 encoded.
-	if ctx.Mode()&(context.ERROR) == 0 {
+	// every scope which the subroutine runs in must allow the statement
+	if ctx.Mode()&(context.ERROR) == 0 || ctx.Mode()&^(context.ERROR) != 0 {
 		err := &LintError{
 			Severity: ERROR,
 			Token:    stmt.GetMeta().Token,
